@@ -2367,18 +2367,21 @@ def r100(ctx: Ctx) -> RuleReport:
                 rep.violation(key, mv.loc(x), f'`{k}` is the text of any atomic branch target - a constant, a string, a number - and only variables are keys of `{mp}`: '
                               f'KeyError for the first constant, although constants must be left as they are')
     rv = ctx.repo.func('penman.tree', 'Tree.reset_variables')
-    gens = [n for n in walk_local(rv.node) if isinstance(n, (ast.GeneratorExp, ast.ListComp)) and len(n.generators) == 1 and isinstance(n.generators[0].target, ast.Tuple)
+    from ..resolve import local_callees as _lc
+    scope_fs = _lc(ctx, rv, depth=1)
+    gens = [n for f_ in scope_fs for n in walk_local(f_.node) if isinstance(n, (ast.GeneratorExp, ast.ListComp)) and len(n.generators) == 1
+            and isinstance(n.generators[0].target, ast.Tuple)
             and len(n.generators[0].target.elts) == 2 and norm(n.elt) == norm(n.generators[0].target.elts[1])]
     key = f'{rv.fq}: the concept that names a node is the target of its "/" branch'
     if not gens:
         # loop form: for role, tgt in branches: if role == '/': concept = tgt; break
         loopform = False
-        for lp in [n for n in walk_local(rv.node) if isinstance(n, ast.For) and isinstance(n.target, ast.Tuple) and len(n.target.elts) == 2]:
+        for f_, lp in [(f_, n) for f_ in scope_fs for n in walk_local(f_.node) if isinstance(n, ast.For) and isinstance(n.target, ast.Tuple) and len(n.target.elts) == 2]:
             r_ = norm(lp.target.elts[0])
             t_ = norm(lp.target.elts[1])
             for a_ in ast.walk(lp):
-                if isinstance(a_, ast.Assign) and norm(a_.value) == t_:
-                    fx_ = {(f.replace(' ', ''), pol) for f, pol in facts_ex(ctx, rv, a_)}
+                if isinstance(a_, (ast.Assign, ast.Return)) and a_.value is not None and norm(a_.value) == t_:
+                    fx_ = {(f.replace(' ', ''), pol) for f, pol in facts_ex(ctx, f_, a_)}
                     if (f"{r_}=='/'", True) in fx_ or (f'{r_}==CONCEPT_ROLE', True) in fx_:
                         loopform = True
                         rep.ok(key, rv.loc(a_), 'loop form')
